@@ -177,7 +177,11 @@ func (s *Scanner) Length() uint {
 		if lex.Type() == lexeme.EndTop {
 			// Found character after the end of the schema and spaces.
 			// Example: char "s" in "{} some text"
-			length = uint(lex.End()) - 1
+			length = uint(lex.End())
+			if s.hasTrailingCharacters {
+				// The event was delayed by one byte.
+				length--
+			}
 			break
 		}
 
